@@ -546,6 +546,12 @@ func htmlSinkOperands(c *Ctx, f *flow, rule string) {
 						nops++
 						key := fmt.Sprintf("%s|%s#%d|arg%d.%d", name, kind, ord[kind], i, li)
 						if ok, why := leafAcceptableHTML(l, name); !ok {
+							if onlyCalled[fn] && acceptableModuloOwnParams(l, name) {
+								// a parameter of this directly-called helper handed on to the wrapper: decided at its call sites
+								deferred[fn] = append(deferred[fn], deferredSink{key: key, leaves: []leaf{l}, pos: ins.Pos()})
+								c.ok(rule, key, c.pos(ins.Pos()), l.String()+" (the helper's own parameter: decided where it is called)")
+								continue
+							}
 							c.viol(rule, key, c.pos(ins.Pos()), fmt.Sprintf("%s: %s (through %s)", name, why, callee.Name()))
 						} else {
 							c.ok(rule, key, c.pos(ins.Pos()), l.String())
